@@ -450,3 +450,63 @@ func R4PivotQueue(c *Ctx) {
 		c.R.Bad(rule, FuncShort(fn), "wrapped job → queue of the top ancestor", c.pos(fn.Pos()), "PivotAddJob queues nothing on an ancestor")
 	}
 }
+
+// R4ReplyIsBatch — what a check-in is answered with is the encoding of exactly the jobs taken off the queue.
+func R4ReplyIsBatch(c *Ctx) {
+	const rule = "R4-reply-is-batch"
+	c.R.Rule(rule, "in handleDemonAgent (and helpers) the jobs GetQueuedJobs hands out are encoded by one BuildPayloadMessage call that receives that very slice, and the bytes written to the response after GetQueuedJobs are that call's result and nothing else (not a subset rebuilt job by job, not a variable reassigned in between): a task that was taken off the queue and is missing from the reply is lost", 1)
+	hd := c.P.Func(PkgHandlers, "handleDemonAgent")
+	if hd == nil {
+		c.R.Anchor(rule, "handlers.handleDemonAgent")
+		return
+	}
+	n := 0
+	for _, fn := range HelperClosure(hd, 1) {
+		var gq *ssa.Call
+		EachCall(fn, func(call ssa.CallInstruction) {
+			if CalleeName(call) == "(*Havoc/pkg/agent.Agent).GetQueuedJobs" {
+				gq, _ = call.(*ssa.Call)
+			}
+		})
+		if gq == nil {
+			continue
+		}
+		// the encoding of the whole batch
+		var enc *ssa.Call
+		EachCall(fn, func(call ssa.CallInstruction) {
+			if CalleeName(call) == "Havoc/pkg/agent.BuildPayloadMessage" && call.Common().Args[0] == ssa.Value(gq) {
+				enc, _ = call.(*ssa.Call)
+			}
+		})
+		n++
+		construct := "reply = BuildPayloadMessage(GetQueuedJobs())"
+		if enc == nil {
+			c.R.Bad(rule, FuncShort(fn), construct, c.pos(gq.Pos()), "no BuildPayloadMessage call encodes the slice GetQueuedJobs returned: the reply is assembled from something else than the batch taken off the queue")
+			continue
+		}
+		bad := ""
+		wrote := false
+		EachCall(fn, func(call ssa.CallInstruction) {
+			if CalleeName(call) != "(*bytes.Buffer).Write" || !InstrDominates(gq, call.(ssa.Instruction)) {
+				return
+			}
+			arg := call.Common().Args[1]
+			if arg == ssa.Value(enc) {
+				wrote = true
+				return
+			}
+			bad = c.pos(call.Pos())
+		})
+		switch {
+		case bad != "":
+			c.R.Bad(rule, FuncShort(fn), construct, bad, "after the jobs were taken off the queue the response is written from a value that is not (only) the encoding of that batch: tasks of the batch can be missing from the reply")
+		case !wrote:
+			c.R.Bad(rule, FuncShort(fn), construct, c.pos(enc.Pos()), "the encoded batch is never written to the response")
+		default:
+			c.R.Ok(rule, FuncShort(fn), construct, c.pos(enc.Pos()), "the batch taken off the queue is what is encoded and written", true)
+		}
+	}
+	if n == 0 {
+		c.R.Anchor(rule, "the GetQueuedJobs call of handleDemonAgent")
+	}
+}
